@@ -286,13 +286,14 @@ def run(ck):
     ck.ob('PROV-spec-separator', mod.loc(parse), len(chain) == 1 and isinstance(chain[0].targets[0], ast.Tuple) and isinstance(chain[0].targets[0].elts[0], ast.Starred),
           'the chain is what precedes the first "-", when there is one', key='PROV-spec-separator|chain')
 
-    # ------------------------------------------------------------ DT: the request specification is read as documented (interpreted on 17 spellings, residue number 0 among them)
+    # ------------------------------------------------------------ DT: the request specification is read as documented (interpreted on 21 spellings: residue number 0, an explicitly empty chain, a residue name that ends in a digit)
     from .. import interp as _interp
     cases_ = {'A-LYS2': {'chain': 'A', 'resname': 'LYS', 'resid': 2}, 'PO4#2': {'resname': 'PO4', 'resid': 2}, 'A-13': {'chain': 'A', 'resid': 13}, '14': {'resid': 14},
               'LYS': {'resname': 'LYS'}, 'A-LYS': {'chain': 'A', 'resname': 'LYS'}, 'nter': {'resname': 'nter'}, 'A-PO4#12': {'chain': 'A', 'resname': 'PO4', 'resid': 12},
               'X5': {'resname': 'X', 'resid': 5}, 'B-GLY100': {'chain': 'B', 'resname': 'GLY', 'resid': 100}, '7': {'resid': 7}, 'A-7': {'chain': 'A', 'resid': 7},
               'cter': {'resname': 'cter'}, 'AB-HIS1234': {'chain': 'AB', 'resname': 'HIS', 'resid': 1234},
-              'A-SER0': {'chain': 'A', 'resname': 'SER', 'resid': 0}, '0': {'resid': 0}, 'A-0': {'chain': 'A', 'resid': 0}}
+              'A-SER0': {'chain': 'A', 'resname': 'SER', 'resid': 0}, '0': {'resid': 0}, 'A-0': {'chain': 'A', 'resid': 0},
+              '-PHE2': {'chain': '', 'resname': 'PHE', 'resid': 2}, '-GLY': {'chain': '', 'resname': 'GLY'}, 'CYS2#': {'resname': 'CYS2'}, 'A-CYS2#14': {'chain': 'A', 'resname': 'CYS2', 'resid': 14}}
     bad_ = None
     try:
         for spec_, want_ in cases_.items():
